@@ -126,13 +126,13 @@ func (r *Run) report(pd *propertyDef, update bool) int {
 		solverS += ob.Result.Seconds
 		if ob.Canary {
 			fn := ob.Unit + "/" + ob.Fn
-			canarySeen[fn] = true
 			if strings.HasSuffix(ob.Name, "#canary.pre") {
 				if ob.Result.Verdict == VUnsat {
 					failing = append(failing, ob)
 				}
 				continue
 			}
+			canarySeen[fn] = true
 			if ob.Result.Verdict != VUnsat {
 				canaryOK[fn] = true
 			}
